@@ -19,6 +19,7 @@ CFG = """CONSTANTS
  RampIds = {ramps}
  DestIds = {dests}
  NameOf <- MCNameOf
+ InvalTable <- MCInvalTable
  InvalImplicitNodes = {inval}
  DestNameWrite = {destwrite}
  PathEndChecked = {pathend}
@@ -68,11 +69,11 @@ def transitions(profile: str, universe: str, depth: int, maxpath: int = 3, model
     cfg.write_text(CFG.format(nodes=tla_set(u["nodes"]), links=tla_set(u["links"]), origs=tla_set(u["origs"]),
                               ramps=tla_set(u["ramps"]), dests=tla_set(u["dests"]), depth=depth, profile=profile,
                               maxpath=maxpath, **model))
-    env = {"SHAPES_FILE": ""}
+    env = {"SHAPES_FILE": "", "INVAL_FILE": ""}
     if profile == "near":
         import dyncases
         sp, _ = dyncases.shapes(*{3: (3, 3), 4: (4, 4), 5: (4, 5)}[maxpath])
-        env = {"SHAPES_FILE": str(sp)}
+        env = {"SHAPES_FILE": str(sp), "INVAL_FILE": ""}
     res = run_tlc("MC_Build.tla", cfg=str(cfg), env=env, workers=1, heap="8g", timeout=3 * 3600, tag=key)
     if res["rc"] not in (0,):
         raise MachineryError("MC_Build: the specification itself violates a property or failed:\n" + tlc_error_excerpt(res["out"], 40))
